@@ -405,6 +405,10 @@ func (b *Builder) AddDeviate(o interface{}) *AddDeviate {
 	d, valid := o.(*Deviation)
 	if !valid {
 		b.setErr(fmt.Errorf("%T does not allow deviate, only deviations do", o))
+	} else if d.Add != nil {
+		// a deviation may hold several deviate statements of one kind: what the next one states
+		// is collected with what the ones before it stated
+		return d.Add
 	} else {
 		d.Add = &add
 	}
@@ -416,6 +420,10 @@ func (b *Builder) ReplaceDeviate(o interface{}) *ReplaceDeviate {
 	d, valid := o.(*Deviation)
 	if !valid {
 		b.setErr(fmt.Errorf("%T does not allow deviate, only deviations do", o))
+	} else if d.Replace != nil {
+		// a deviation may hold several deviate statements of one kind: what the next one states
+		// is collected with what the ones before it stated
+		return d.Replace
 	} else {
 		d.Replace = &x
 	}
@@ -427,6 +435,10 @@ func (b *Builder) DeleteDeviate(o interface{}) *DeleteDeviate {
 	d, valid := o.(*Deviation)
 	if !valid {
 		b.setErr(fmt.Errorf("%T does not allow deviate, only deviations do", o))
+	} else if d.Delete != nil {
+		// a deviation may hold several deviate statements of one kind: what the next one states
+		// is collected with what the ones before it stated
+		return d.Delete
 	} else {
 		d.Delete = &x
 	}
